@@ -125,6 +125,34 @@ func (c *c12) partA(T, P string) {
 		if !setter.IsValid() {
 			c.viol("setter-missing", "Set"+P, cs, "no setter")
 		}
+		// programmatic path: Set<P> on a fresh value, read back, serialise
+		if ctor, okC := reg.PropCtors[P]; okC && setter.IsValid() {
+			fresh := newType(T)
+			pv := reflect.ValueOf(ctor).Call(nil)[0]
+			u := mustURL("https://example.com/programmatic/" + pr.Name)
+			if pr.Functional {
+				callM(concrete(pv), "SetIRI", u)
+			} else {
+				callM(concrete(pv), "AppendIRI", u)
+			}
+			pcs := c12Case{Part: "A.set", Type: T, Prop: P, Value: u.String()}
+			r.Eval(1)
+			if _, okS, pan := callM(reflect.ValueOf(fresh), "Set"+P, pv); !okS || pan != nil {
+				c.viol("setter-failed", "Set"+P, pcs, fmt.Sprint(pan))
+			} else {
+				back, _ := getProp(fresh, P)
+				if isNil(back) || concrete(back).Interface() != concrete(pv).Interface() {
+					c.viol("setter-not-read-back", "Get"+P, pcs, "Get after Set does not return the property that was set")
+				}
+				out, serr, span := encode(fresh)
+				if serr != nil || span != nil {
+					c.viol("encode-failed", "streams.Serialize", pcs, fmt.Sprintf("err=%v panic=%v", serr, span))
+				} else if got, _ := out[pr.Name].(string); got != u.String() {
+					c.viol("setter-not-serialised", "streams.Serialize", pcs, fmt.Sprintf("member %q is %s", pr.Name, jstr(out[pr.Name])))
+				}
+				r.NonTrivial("A.set|" + T + "|" + P)
+			}
+		}
 		// Map spelling
 		mdoc := docFor(T, map[string]interface{}{pr.Name + "Map": map[string]interface{}{"en": "hello", "fr": "bonjour"}})
 		mcs := c12Case{Part: "A.map", Type: T, Prop: P, Doc: mdoc}
@@ -348,6 +376,79 @@ func (c *c12) partB(P string) {
 			o, okS, p := callM(prop, "Serialize")
 			if okS && p == nil && !reflect.DeepEqual(normJSON(o[0].Interface()), normJSON(cs.Value)) {
 				c.viol("raw-value-lost", "Serialize", cs, fmt.Sprintf("got %s", jstr(o[0].Interface())))
+			}
+		}
+	}
+	// type kinds through the kind-agnostic programmatic entry point:
+	// SetType / AppendType(vocab.Type) error accepts exactly the range
+	if okC {
+		for _, K := range O.TypeKeys {
+			tv := newType(K)
+			if tv == nil {
+				continue
+			}
+			adm := inList(adT, K)
+			pv := concrete(reflect.ValueOf(ctor).Call(nil)[0])
+			op := "AppendType"
+			if pr.Functional {
+				op = "SetType"
+			}
+			cs := c12Case{Part: "B.generic", Prop: P, Kind: K, Value: op + "(new " + K + ")"}
+			out, okM, pan := callM(pv, op, tv)
+			if !okM {
+				if len(adT) > 0 {
+					c.viol("generic-setter-missing", op, cs, "property ranged over types has no "+op)
+				}
+				break
+			}
+			r.Eval(1)
+			if pan != nil {
+				c.viol("generic-setter-panicked", op, cs, fmt.Sprint(pan))
+				continue
+			}
+			refused := len(out) == 1 && !isNil(out[0])
+			if adm {
+				r.NonTrivial("B.generic|" + P + "|" + K)
+			}
+			if adm && refused {
+				c.viol("admissible-type-refused", op, cs, fmt.Sprint(out[0].Interface()))
+				continue
+			}
+			if !adm && !refused {
+				c.viol("inadmissible-type-accepted", op, cs, "the generic setter stored a type outside the declared range")
+				continue
+			}
+			el := pv
+			if !pr.Functional {
+				els, e := propElems(pv, false)
+				if adm && (e != nil || len(els) != 1) {
+					c.viol("generic-setter-effect", op, cs, fmt.Sprintf("len=%d after one AppendType", len(els)))
+					continue
+				}
+				if !adm {
+					if len(els) != 0 {
+						c.viol("generic-setter-effect", op, cs, "a refused value was appended")
+					}
+					continue
+				}
+				el = els[0]
+			}
+			fl := trueFlags(el)
+			if !adm {
+				if len(fl) != 0 {
+					c.viol("generic-setter-effect", op, cs, fmt.Sprintf("a refused value set flags %v", fl))
+				}
+				continue
+			}
+			if len(fl) != 1 || fl[0] != K {
+				c.viol("wrong-kind", op, cs, fmt.Sprintf("flags=%v want [%s]", fl, K))
+				continue
+			}
+			if g, okG := getKind(el, K); !okG || isNil(g) || g.Interface() != interface{}(tv) {
+				c.viol("wrong-value", "Get"+K, cs, "typed accessor does not return the value given to "+op)
+			}
+			if o, okT, p := callM(el, "GetType"); okT && (p != nil || isNil(o[0]) || o[0].Interface() != interface{}(tv)) {
+				c.viol("wrong-value", "GetType", cs, "GetType does not return the value given to "+op)
 			}
 		}
 	}
